@@ -52,8 +52,20 @@ Check == inst # <<>> =>
         [expr |-> Render(ts), adm |-> Admissible(ts, doc)]
       cases == { sub(b, c, TRUE, f) : b \in 0..(np - 1), c \in 0..(np - 1), f \in 1..3 }
                \cup { sub(b, 0, FALSE, f) : b \in 0..(np - 1), f \in 1..3 }
-      case  == [p |-> Prop, kind |-> "search", doc |-> doc, multi |-> cases]
+      \* every legal spelling of an integer literal: leading zeros are decimal,
+      \* never octal; -0 is 0 (once per run, on a 12-element array / string)
+      doc12 == DocOf(12, inst.str)
+      sp == << <<48,49,48>>, <<48,56>>, <<48,48,55>>, <<45,48,49,48>>, <<48,49,49>>, <<48,48>>, <<45,48>>, <<48,48,49,50>>, <<48,48,48,48,48,48,48,49,48>>, <<45,48,57>>, <<48,49>> >>
+      spell(ts) == [expr |-> Render(ts), adm |-> Admissible(ts, doc12), doc |-> doc12]
+      spelled == IF inst.n # 0 \/ inst.a # 0 THEN {}
+                 ELSE UNION { { spell(<<Id(<<120>>), LB, IntT(sp[i]), RB>>), spell(<<Id(<<120>>), LB, IntT(sp[i]), Colon, RB>>),
+                                spell(<<Id(<<120>>), LB, Colon, IntT(sp[i]), RB>>), spell(<<Id(<<120>>), LB, Colon, Colon, IntT(sp[i]), RB>>),
+                                spell(<<Id(<<120>>), LB, IntT(sp[i]), Colon, IntT(sp[i]), Colon, RB>>),
+                                spell(<<Id(<<120>>), PipeT, LB, IntT(sp[i]), RB>>) } : i \in 1..Len(sp) }
+      case  == [p |-> Prop, kind |-> "search", doc |-> doc,
+                multi |-> { [expr |-> c.expr, adm |-> c.adm, doc |-> doc] : c \in cases } \cup spelled]
   IN /\ Emit => PrintT("CASE " \o ToJson(case))
      \* an error only for step 0; otherwise a value of the sliced kind
      /\ Named(\A cs \in cases : \A o \in cs.adm : IsErr(o) => o.cs = {"invalid-value"}, "ErrorOnlyForStepZero")
+     /\ Named(\A c \in spelled : \A o \in c.adm : IsVal(o) \/ (IsErr(o) /\ o.cs = {"invalid-value"}), "SpellingsAreIntegers")
 =============================================================================
